@@ -82,6 +82,25 @@ def expand_s(job, P, ob, where, entry, seed_ok):
                                    "entry": job["root"], "instances_found": len(xs), "expected": k + l, "first_mismatch": bad})
 
 
+SAMPLER_PROBES = "hashing::rej_ntt_poly|hashing::rej_bounded_poly"
+
+
+def sampler_fill(job, ob, entry, expected):
+    """Alg. 30 / 31 return only when all 256 coefficients have been drawn: in every call of the rejection
+    samplers reachable from this entry, a counter variable of the function is exactly 256 when its storage ends
+    (job option probe must include SAMPLER_PROBES).  expected: {function: number of calls}."""
+    for fn, want in expected.items():
+        pr = ret_probes(job, "hashing::%s" % fn)
+        bad = []
+        for p in pr:
+            ends = dict(x.split("=", 1) for x in (p["data"].get("scope_end") or "").split(";") if "=" in x)
+            if "[256,256]" not in ends.values():
+                bad.append({"call": p["data"].get("path", "")[-120:], "final_values_of_named_integer_variables": ends})
+        ob(len(pr) >= want and not bad, "sampler-fills-256:%s:%s" % (fn, entry),
+           {"rule": "the rejection sampler leaves its loop only with 256 accepted coefficients (a counter variable is exactly 256 at the end of its scope on every path to the return)",
+            "entry": job["root"], "function": fn, "calls_analysed": len(pr), "calls_expected_at_least": want, "offending": bad[:2]})
+
+
 def single_read(job, site, length, dest_suffix):
     rd = absorb.reads(job, site["id"])
     return len(rd) == 1 and rd[0]["len"] == str(length) and rd[0]["off"] == "0..0" and rd[0]["dest"].endswith(dest_suffix) and rd[0]["dest_start"] == "0", rd
